@@ -1327,7 +1327,12 @@ func genInterfaceWrapper(n *node, typ reflect.Type) func(*frame) reflect.Value {
 		}
 		v = getConcreteValue(v)
 		w := reflect.New(wrap).Elem()
-		w.Field(0).Set(v)
+		if tc == structT && rv.IsValid() && rv.Kind() == reflect.Struct {
+			// The value held by the wrapper is the struct itself, not one of its fields.
+			w.Field(0).Set(rv)
+		} else {
+			w.Field(0).Set(v)
+		}
 		for i, m := range methods {
 			if m == nil {
 				// First direct method lookup on field.
@@ -3426,6 +3431,10 @@ func _case(n *node) {
 					// interface case. But maybe we should make sure by checking the relevant cat
 					// instead? later. Use t := v.Type(); t.Kind() == reflect.Interface , like above.
 					if !ok {
+						if inner := wrappedValue(reflect.ValueOf(ival)); inner.IsValid() {
+							// The value of a script type held by a host interface.
+							ival = inner.Interface()
+						}
 						var stype string
 						if ival != nil {
 							stype = strings.ReplaceAll(reflect.TypeOf(ival).String(), " {}", "{}")
@@ -3500,6 +3509,11 @@ func _case(n *node) {
 						return fnext
 					}
 					elem := v.Elem()
+					if inner := wrappedValue(elem); inner.IsValid() && !isInterface(typ) && inner.Type() == rtyp {
+						// The value of a script type held by a host interface.
+						destValue(f).Set(inner)
+						return tnext
+					}
 					if rtyp.String() == t.String() && implementsInterface(v, typ) {
 						destValue(f).Set(elem)
 						return tnext
@@ -3548,6 +3562,11 @@ func _case(n *node) {
 							continue
 						}
 						elem := val.Elem()
+						if inner := wrappedValue(elem); inner.IsValid() && !isInterface(typ) && inner.Type() == rtyp {
+							// The value of a script type held by a host interface.
+							destValue(f).Set(elem)
+							return tnext
+						}
 						if rtyp.String() == t.String() && implementsInterface(val, typ) {
 							destValue(f).Set(elem)
 							return tnext
@@ -3616,6 +3635,15 @@ func _case(n *node) {
 			return fnext
 		}
 	}
+}
+
+// wrappedValue returns the value of a script type held by the wrapper v of a
+// host interface, or an invalid value if v is not such a wrapper.
+func wrappedValue(v reflect.Value) reflect.Value {
+	if v.IsValid() && v.Kind() == reflect.Struct && v.NumField() > 0 && v.Type().Field(0).Name == "IValue" {
+		return v.Field(0).Elem()
+	}
+	return reflect.Value{}
 }
 
 func implementsInterface(v reflect.Value, t *itype) bool {
